@@ -284,8 +284,14 @@ def history(args):
                     mexp *= (t_prev - T_IN) / (t_out - T_IN)
                 else:
                     mexp = mt
+                # as Orificing._do_iter does, the bulk outlet temperature of
+                # the previous sweep comes from the object's own summary of
+                # the results; the expected total uses ours (flow-weighted)
+                t_code = t_prev
+                if res_prev is not None:
+                    t_code = float(orf._summarize_group_data(res_prev)[-1, 0])
                 dev, m = distribute_events(ob, orf, spec, types, tabs, mexp,
-                                           res_prev, t_prev)
+                                           res_prev, t_code)
             except SystemExit:
                 ev.append({'e': 'Crash', 'stage': f'round{rnd}',
                            'exc': 'SystemExit', 'msg': 'regroup aborted'})
